@@ -1,9 +1,127 @@
 import Driver.Proto
+import ScrapliModel.OptionsSpec
 namespace Driver
-open Scrapli
+open Scrapli Scrapli.Options Scrapli.Gen.Options
 
-/-- line-protocol handler for property C19 (arguments after the leading `c19` token) -/
+namespace C19
+
+def optOfName (s : String) : Option Opt := allOpts.find? (fun o => (spec o).name == s)
+
+/-- `Name:envOk:env:arg1:arg2…` (env and args are hex lists) -/
+def parseOpt (s : String) : Option OptInst := do
+  match s.splitOn ":" with
+  | name :: ok :: env :: args =>
+    let o ← optOfName name
+    let e ← hexList env
+    let a ← args.mapM hexList
+    some { opt := o, args := a, env := e, envOk := s2b ok }
+  | _ => none
+
+def parseOpts (s : String) : Option (List OptInst) :=
+  if s == "_" then some [] else (s.splitOn "|").mapM parseOpt
+
+def tailS (s : String) : String := String.ofList (s.toList.drop 1)
+
+def parseY (s : String) : Option YVal :=
+  match s.toList.head? with
+  | some 'i' => (fromHex (tailS s)).map .int
+  | some 's' => (fromHex (tailS s)).map .str
+  | some 'f' => (tailS s).toNat?.map .flt
+  | some 'l' => (hexList (tailS s)).map .lst
+  | some 'b' => some (.bool (tailS s == "1"))
+  | some 'n' => some .null
+  | _ => none
+
+def parseTok (s : String) : Option (Option Bytes) :=
+  if s == "_" then some none else (fromHex s).map some
+
+def parsePlatOpts (s : String) : Option (List (Bytes × YVal)) :=
+  if s == "_" then some [] else
+    (s.splitOn "|").mapM fun it =>
+      match it.splitOn ":" with
+      | [n, v] => do
+        let n ← fromHex n
+        let v ← parseY v
+        some (n, v)
+      | _ => none
+
+def applyPlatField (p : PlatformDef) (kv : String) : Option PlatformDef :=
+  match kv.splitOn "=" with
+  | [k, v] =>
+    if k == "fwc" then (hexList v).map fun x => { p with failedWhenContains := x }
+    else if k == "oo" then (parseTok v).map fun x => { p with onOpen := x }
+    else if k == "oc" then (parseTok v).map fun x => { p with onClose := x }
+    else if k == "noo" then (parseTok v).map fun x => { p with networkOnOpen := x }
+    else if k == "noc" then (parseTok v).map fun x => { p with networkOnClose := x }
+    else if k == "pl" then (hexList v).map fun x => { p with privilegeLevels := x }
+    else if k == "ddp" then (fromHex v).map fun x => { p with defaultDesiredPriv := x }
+    else if k == "opts" then (parsePlatOpts v).map fun x => { p with options := x }
+    else none
+  | _ => none
+
+def parsePlat (s : String) : Option (Option PlatformDef) :=
+  if s == "-" then some none else
+    ((s.splitOn ";").foldlM applyPlatField ({} : PlatformDef)).map some
+
+def parseCtor (s : String) : Option Ctor :=
+  if s == "generic" then some .generic else if s == "network" then some .network
+  else if s == "netconf" then some .netconf else if s == "logging" then some .logging else none
+
+def showConfig (c : Config) : String :=
+  ";".intercalate (allFields.map fun f => f.name ++ "=" ++ showHexList (c f))
+
+def showRes : Except Err Config → String
+  | .ok c => "ok:" ++ showConfig c
+  | .error .badOption => "err:badoption"
+  | .error .other => "err:other"
+
+def construct (k : Ctor) (plat : Option PlatformDef) (user : List OptInst) : String :=
+  let poModel : Option (List OptInst) := match plat with
+    | none => some []
+    | some p => platformAsOptions p
+  let poSpec : Option (List OptInst) := match plat with
+    | none => some []
+    | some p => platformAsOptionsSpec p
+  let model := match poModel with
+    | none => "panic"
+    | some po => showRes (Scrapli.Options.construct k (po ++ user) defaults)
+  match poSpec with
+  | none => s!"dom=0 model={model} spec=-"
+  | some po =>
+    let opts := po ++ user
+    let eff := Scrapli.Options.effective k opts
+    let dom := allValidB eff
+    let s := Scrapli.Options.specConfig k opts defaults
+    -- hypotheses of `invalid_is_badoption` / `invalid_log_level_is_badoption`
+    let badArg := fun (o : OptInst) => !argValid (spec o.opt) o
+    let invDriver := k != .logging &&
+      opts.any (fun o => (o.opt == .WithTransportType || o.opt == .WithNetconfPreferredVersion) && badArg o) &&
+      opts.all (fun o => o.opt != .WithDefaultLogger || o.envOk)
+    let invLog := k == .logging && opts.any (fun o => o.opt == .logging_WithLevel && badArg o) &&
+      opts.all (fun o => (failsOn .logging_Instance o).isNone || (o.opt == .logging_WithLevel && badArg o))
+    if dom then s!"dom=1 model={model} spec={showRes s}"
+    else if invDriver || invLog then s!"dom=1 model={model} spec=err:badoption"
+    else s!"dom=0 model={model} spec=-"
+
+end C19
+
+/-- line-protocol handler for property C19 (arguments after the leading `c19` token)
+
+* `construct <ctor> <platform|-> <opts|_>` → `dom=… model=… spec=…`
+* `compat <ctor> <opts>` → `1` when the (effective) option list is pairwise compatible
+  (hypothesis of `options_commute`), else `0` -/
 def handleC19 : List String → String
+  | ["construct", k, plat, opts] =>
+    match C19.parseCtor k, C19.parsePlat plat, C19.parseOpts opts with
+    | some k, some p, some o => C19.construct k p o
+    | _, _, _ => "bad-op"
+  | ["names"] =>
+    ",".intercalate (Scrapli.Gen.PlatformOptions.entries.map fun e =>
+      toHex e.name ++ ":" ++ toHex (ofStr e.documented))
+  | ["compat", k, opts] =>
+    match C19.parseCtor k, C19.parseOpts opts with
+    | some k, some o => b2s (pairwiseB compatB (Scrapli.Options.effective k o))
+    | _, _ => "bad-op"
   | _ => "bad-op"
 
 end Driver
